@@ -211,7 +211,14 @@ func isUntyped(pkg *Package, typ types.Type) bool {
 }
 
 func toChanType(pkg *Package, t *types.Chan) ast.Expr {
-	return &ast.ChanType{Value: toType(pkg, t.Elem()), Dir: chanDirs[t.Dir()]}
+	elem := toType(pkg, t.Elem())
+	if t.Dir() == types.SendRecv {
+		// chan (<-chan T): without parentheses the arrow binds to the outer chan (chan<- chan T)
+		if e, ok := elem.(*ast.ChanType); ok && e.Dir == ast.RECV {
+			elem = &ast.ParenExpr{X: elem}
+		}
+	}
+	return &ast.ChanType{Value: elem, Dir: chanDirs[t.Dir()]}
 }
 
 var (
